@@ -158,6 +158,30 @@ def held_preset_cases(tier, rng):
         a = aid(rng.choice([2, 2, 3, 1]), 0, False, rng.random() < .3)
         yield ('(rmulti [%s %s])' % (routed_scenario([(a, [r])], steps), routed_scenario([(a, handwritten(r))], steps)), 'presets-created-while-held')
 
+def timed_each_cases(tier, rng):
+    """stateful built-in conditions with non-default settings (Hold / Tap / HoldAndRelease / Pulse measured in the virtual
+    time base, one-shot, limits) attached to every element through with_conditions_each, against the same conditions
+    attached per input, under time dilation and pauses: the helper hands every element the condition as configured"""
+    for _ in range(30 if tier == 'thorough' else 10):
+        ids = Ids()
+        n = rng.randint(1, 3)
+        ks = rng.sample([0, 1, 2, 3], n)
+        logical = [(key(k), [(ids.next(), PROBE)], []) for k in ks]
+        rel = 'true' if rng.random() < .75 else 'false'
+        cond = rng.choice(['(c_hold 1/8 false 1/2 %s)' % rel, '(c_hold 1/16 true 1/2 %s)' % rel, '(c_tap 1/8 1/2 %s)' % rel,
+                           '(c_hold_and_release 1/8 1/2 %s)' % rel, '(c_pulse 1/16 2 true 1/2 %s)' % rel, '(c_pulse 1/8 0 false 1/2 %s)' % rel])
+        each_c = [(ids.next(), cond)]
+        steps = [sop(spawn(0, [0])), frame(raw(pads=[pad(0)]))]
+        cur = set(); speed = rng.choice([F(1, 2), F(2), F(1, 4), F(4)])
+        for i in range(rng.randint(8, 14)):
+            for k in ks:
+                if rng.random() < .3: cur ^= {k}
+            if rng.random() < .15: speed = rng.choice([F(1, 2), F(2), F(1), F(1, 4)])
+            steps.append(frame(raw(keys=sorted(cur), pads=[pad(0)]), rng.choice([F(1, 32), F(1, 16)]), speed, rng.random() < .1))
+        a = aid(rng.randrange(4), 0, False, rng.random() < .3)
+        variants = equivalent_routes(rng, logical, [], each_c)
+        yield ('(rmulti [%s])' % ' '.join(routed_scenario([(a, routes)], steps) for _, routes in variants), 'timed-conditions-each')
+
 def rand_frames(rng, L, keys=(0, 1, 2, 3)):
     steps = [sop(spawn(0, [0])), frame(raw(pads=[pad(0)]))]
     for _ in range(L):
@@ -195,6 +219,8 @@ def _cases(tier, rng):
     for x in held_route_cases(tier, rng):
         yield x
     for x in repeated_input_cases(tier, rng):
+        yield x
+    for x in timed_each_cases(tier, rng):
         yield x
     for x in held_preset_cases(tier, rng):
         yield x
@@ -288,7 +314,7 @@ STAGES = [dict(name='routes', mode='app', coq='Check.C19m', profile=('Proofs.Jud
                exhaustive={'thorough': False, 'quick': False},
                rule='(a) for each of 25 (quick) / 120 (thorough) generated logical binding sequences of 1-4 inputs (with own scripted modifiers/conditions and 0-2 modifiers attached to every element), the action is '
                     'built through every route of the menu that denotes it - repeated to() calls, flat tuple, nested tuples, mixed calls, with_modifiers_each over tuples, slices, &Vec, arrays, tuples of slices - all through '
-                    'the crate\'s own InputBindSet impls, and run on the same random script; every trace must equal the model\'s run of the logical sequence. with_conditions_each (once, twice, combined with with_modifiers_each) over elements that already carry conditions; an action bound, others bound, then the first bound again with one more input while a later action listens on its consumed key; routes compared on contexts created while one of the inputs is held; lists in which the same input occurs more than once (every occurrence counts); presets against their hand-written expansion on contexts created or rebuilt while sticks are deflected / keys are down. (b) Cardinal built from four arbitrary distinct keys in every '
+                    'the crate\'s own InputBindSet impls, and run on the same random script; every trace must equal the model\'s run of the logical sequence. with_conditions_each (once, twice, combined with with_modifiers_each) over elements that already carry conditions; an action bound, others bound, then the first bound again with one more input while a later action listens on its consumed key; routes compared on contexts created while one of the inputs is held; lists in which the same input occurs more than once (every occurrence counts); built-in timed conditions in the virtual time base attached through with_conditions_each under time dilation and pauses; presets against their hand-written expansion on contexts created or rebuilt while sticks are deflected / keys are down. (b) Cardinal built from four arbitrary distinct keys in every '
                     '(quick: every 4th) assignment, from gamepad buttons, from two-key Vecs per direction, on all output types; Bidirectional; both sticks; the built-in WASD / arrow / d-pad sets; every subset of directions pressed. (c) Cardinal and Bidirectional whose fields are decorated bindings (own modifiers / conditions), *_each wrappers over slices and tuples, mouse wheel / motion or swizzled keys (two-dimensional values on the negative side), each compared with the hand-written sequence of the documentation. '
                     'non-trivial = some action fires; distinct = distinct case text')]
 CLAUSES = {1: 'internal: a route of the generator does not denote the logical binding sequence of the case (Model/Bind.denote)', 2: 'a preset does not match the compass: expected (east - west, north - south) / (positive - negative)', 3: 'two construction routes that denote the same binding sequence (or binding an action once vs. twice) behave differently',
